@@ -6,5 +6,6 @@ git -C /repo diff -- . ':(exclude)*/zz_verif_contracts.go' > $d/patch.diff
 [ -s $d/patch.diff ] || { echo "no diff"; exit 1; }
 if [ "$3" = SILENT ]; then echo "{\"prop\": \"$2\", \"silent\": true}" > $d/expect.json; else
 python3 -c "import json,sys; json.dump({'prop': sys.argv[1], 'must_fail': sys.argv[2:]}, open('$d/expect.json','w'))" "$2" "$3" $4 $5; fi
+if [ -n "$SELFTEST_FN" ]; then python3 -c "import json; e=json.load(open('$d/expect.json')); e['fn']='$SELFTEST_FN'; json.dump(e, open('$d/expect.json','w'))"; fi
 git -C /repo diff --name-only -- . ':(exclude)*/zz_verif_contracts.go' | xargs git -C /repo checkout --
 echo created $d
